@@ -284,7 +284,7 @@ func exploreNpmDoc(r *ev.Run, d *npmDoc) {
 	files := map[string]string{"package.json": content}
 	reqs, err := npmReadReqs(files)
 	if err != nil {
-		r.Violation("harness:npm-generated-document-unreadable", err.Error(), &caseSpec{Kind: "npm", Files: files, Main: "package.json"})
+		r.Violation("npm:generated-document-unreadable", err.Error(), &caseSpec{Kind: "npm", Files: files, Main: "package.json"})
 		return
 	}
 	execute(r, &caseSpec{Kind: "npm", Files: files, Main: "package.json", Family: d.Family}, nil)
@@ -672,7 +672,7 @@ func runNpmOnce(cs *caseSpec, dir string) (o outcome) {
 	}
 	m, err := rw.Read(cs.Main, fsys)
 	if err != nil {
-		bad("harness:npm-generated-document-unreadable", "%v", err)
+		bad("npm:generated-document-unreadable", "%v", err)
 		return
 	}
 	reqs := m.Requirements()
